@@ -28,7 +28,7 @@ MIN_EVALS = {'law': {'quick': 5000, 'thorough': 100000}, 'refmodel': {'quick': 5
 
 POSES = ['SO2', 'SE2', 'SO3', 'SE3']
 ALL = POSES + ['UnitQuaternion', 'Twist2', 'Twist3']
-LAWS = ['assoc', 'identL', 'identR', 'invL', 'invR', 'antihom', 'div', 'pow', 'pow0', 'powneg', 'structinv', 'divseq', 'powseq',
+LAWS = ['assoc', 'identL', 'identR', 'invL', 'invR', 'antihom', 'div', 'pow', 'pow0', 'powneg', 'structinv', 'divseq', 'powseq', 'prodseq',
         'aug_copy', 'aug_inv', 'aug_index', 'aug_div', 'aug_pow']
 
 
@@ -104,7 +104,7 @@ def run_law(ctx, p):
     c, law, ops, n = p['cls'], p['law'], [np.asarray(a, dtype=np.float64) for a in p['ops']], p.get('n', 0)
     tw = c in ('Twist2', 'Twist3')
     sig = dict(api=c, law=law)
-    if law in ('divseq', 'powseq'):
+    if law in ('divseq', 'powseq', 'prodseq'):
         return run_seq_law(ctx, p)
     try:
         X = mk(c, [ops[0]])
@@ -240,6 +240,22 @@ def run_seq_law(ctx, p):
             for i in range(max(len(xs), len(ys))):
                 xi, yi = xs[i if len(xs) > 1 else 0], ys[i if len(ys) > 1 else 0]
                 want.append((mk(c, [xi]) * mk(c, [yi]).inv()).data[0])
+        elif law == 'prodseq':
+            # sequence product: the elements multiplied in order, left to right (the group is not commutative)
+            got = X.prod()
+            acc = mk(c, [xs[0]])
+            for x in xs[1:]:
+                acc = acc * mk(c, [x])
+            want = [acc.data[0]]
+            if c in ('Twist2', 'Twist3'):      # compare as motions (the twist of a product is not unique past half a turn)
+                got_m, want_m = as_motion(c, got.data[0]), as_motion(c, acc.data[0])
+                d_ = float(np.max(np.abs(np.asarray(got_m) - np.asarray(want_m)))) if len(got) == 1 else math.inf
+                sc_ = max([1.0, tmag(got_m), tmag(want_m)] + [tmag(as_motion(c, o)) for o in xs])
+                ctx.judge('law', d_ <= TOL * sc_ * len(xs), dict(sig, kind='mismatch', m=min(len(xs), 4)),
+                          lambda: '%s.prod() of %d twists differs from the left-to-right product by %.3g' % (c, len(xs), d_))
+                ctx.cell('law', c, law, '%d' % len(xs))
+                ctx.nontrivial(c, law, len(xs), [np.round(o, 6).tolist() for o in xs])
+                return
         else:
             got = X ** n
             want = [(mk(c, [x]) ** n).data[0] for x in xs]
@@ -413,7 +429,8 @@ def run_exact(ctx, p):
     C = getattr(sm, c)
     sig = dict(api=c, law='exact_integer_subgroup', dtype=dt)
     Ms = [_imat(c, k, t) for k, t in zip(ks, ts)]
-    give = (lambda M: M.astype(np.int64)) if dt == 'int' else (lambda M: M.astype(np.float64))
+    # ('int8': every element given fits, the results of composing them need not -- the object must not compute in that type)
+    give = {'int': lambda M: M.astype(np.int64), 'int8': lambda M: M.astype(np.int8), 'float': lambda M: M.astype(np.float64)}[dt]
     d = 2 if c in ('SO2', 'SE2') else 3
 
     def ipow(M, e):
@@ -473,14 +490,14 @@ def run(ctx):
     for _ in range(ctx.scale(9000, 300000)):
         c = ALL[rng.integers(len(ALL))]
         tw = c in ('Twist2', 'Twist3')
-        laws = ['assoc', 'identL', 'identR', 'invL', 'invR', 'antihom'] if tw else LAWS
+        laws = ['assoc', 'identL', 'identR', 'invL', 'invR', 'antihom', 'prodseq'] if tw else LAWS
         if c in ('SO2', 'SO3', 'UnitQuaternion'):
             laws = [l for l in laws if l != 'structinv']
         if c == 'UnitQuaternion':
-            laws = [l for l in laws if l != 'structinv']
+            laws = [l for l in laws if l not in ('structinv', 'prodseq')]      # (UnitQuaternion offers no prod())
         law = laws[rng.integers(len(laws))]
         n = int(rng.integers(1, 9))
-        if law in ('divseq', 'powseq'):
+        if law in ('divseq', 'powseq', 'prodseq'):
             m = int(rng.integers(2, 5))
             xs = [operand(rng, c) for _ in range(m)]
             ys = [operand(rng, c) for _ in range(m if rng.random() < 0.5 else 1)]
@@ -488,6 +505,8 @@ def run(ctx):
                 xs = xs[:1]
                 ys = [operand(rng, c) for _ in range(m)]
             p = dict(cls=c, law=law, ops=xs, ops2=ys, n=int(rng.integers(-8, 9)))
+        elif law == 'prodseq':
+            p = dict(cls=c, law=law, ops=[operand(rng, c) for _ in range(int(rng.integers(2, 8)))])
         else:
             k = {'assoc': 3, 'antihom': 2, 'div': 2, 'aug_copy': 2, 'aug_index': 2, 'aug_div': 2}.get(law, 1)
             p = dict(cls=c, law=law, ops=[operand(rng, c) for _ in range(k)], n=n)
@@ -501,6 +520,9 @@ def run(ctx):
         m = int(rng.integers(3, 6))
         drive(RUNNERS, ctx, 'exact', dict(cls=c, ks=[int(k) for k in rng.integers(0, 24, size=m)], ts=[[int(v) for v in rng.integers(-9, 10, size=3)] for _ in range(m)],
                                           dtype=['int', 'float'][rng.integers(2)], n=int(rng.integers(-5, 6)), pt=[int(v) for v in rng.integers(-9, 10, size=3)]))
+        if rng.random() < 0.25:     # translations up to 100 in an int8 array: sums and products leave the type
+            drive(RUNNERS, ctx, 'exact', dict(cls=c, ks=[int(k) for k in rng.integers(0, 24, size=m)], ts=[[int(v) for v in rng.integers(-100, 101, size=3)] for _ in range(m)],
+                                              dtype='int8', n=int(rng.integers(-3, 4)), pt=[int(v) for v in rng.integers(-100, 101, size=3)]))
     depth = 4 if ctx.tier == 'quick' else 5
     for _ in range(ctx.scale(3000, 80000)):
         c = ['SO2', 'SE2', 'SO3', 'SE3', 'UnitQuaternion'][rng.integers(5)]
